@@ -12,6 +12,12 @@ def units(tier):
         us.append(Unit(UF.FidPlacementStep, {'namelen': n}))
         us.append(Unit(UF.FIDLength, {'namelen': n}))
     us.append(Unit(UF.FileEntryNew))
+    # symbolic link targets: every sequence of up to three component kinds (empty = doubled / leading / trailing slash, '.', '..', a
+    # Latin-1 name, a name beyond Latin-1) and names at the limit of the one-byte component length
+    for shape in sorted(UF.SYMLINK_SHAPES):
+        us.append(Unit(UF.SymlinkToBytes, {'shape': shape}))
+    for n in (254, 255, -127, -128):
+        us.append(Unit(UF.SymlinkToBytes, {'longname': n}))
     for n in (1, 5, 254, 255):
         us.append(Unit(UF.FIDNew, {'namelen': n}))
     return us
@@ -31,7 +37,7 @@ META = {
         'crc_ccitt / UDFTag.record and the remaining descriptor classes are not under function-level contracts (their effect is checked through the independent reader on the scripts only)',
         'totals over histories (file and directory counts in the integrity descriptor); files larger than 1 GiB are covered at function level only (FileEntryNew), not end to end',
     ],
-    'bounded': ['6 edit scripts + random UDF histories', 'FidPlacementStep name lengths (quick: 5 values; thorough: 0..254)'],
+    'bounded': ['7 edit scripts + random UDF histories', 'SymlinkToBytes: the 154 target shapes of up to three components (concrete texts executed by the verifier: an enumerated family, not a proof over all strings)', 'FidPlacementStep name lengths (quick: 5 values; thorough: 0..254)'],
 }
 
 MANIFEST = {
